@@ -6,7 +6,7 @@
   value correspondence on sampled states of real simulations, harness/c05.py).
 
   PARTIAL: the ODE integrator (scipy VODE) is NOT modelled — it is an arbitrary function `integ`
-  in the loop theorems.  "Recorded times never decrease", "successive outputs no further apart
+  with its own hidden state `σ` (VODE keeps its Nordsieck history between steps) in the loop theorems.  "Recorded times never decrease", "successive outputs no further apart
   than delta_t", "depth never increases along the stored trajectory" and "no component mass exceeds
   its initial value by more than the solver tolerance" are statements about VODE's steps and are
   OBSERVED on real trajectories by the harness only.  What is proved is the right-hand side the
